@@ -39,7 +39,7 @@ PROPS = {
                 n_trace=dict(quick=200, thorough=2000), n_search=dict(quick=3000, thorough=60000)),
     "C06": dict(trace_gen="C06", oracle="C06", relevant=rel({5: STRUCT | LAYER | POS, 6: XY, 7: ROUTE | STRUCT, 9: {1, 2}}),
                 n_trace=dict(quick=160, thorough=1500), n_search=dict(quick=3000, thorough=60000)),
-    "C07": dict(trace_gen="C07", oracle="C07", relevant=rel({s: ALLF | COMP | {0} for s in list(range(0, 10)) + [13, 15, 16]}),
+    "C07": dict(trace_gen="C07", oracle="C07", relevant=rel(dict({s: ALLF | COMP for s in list(range(0, 10)) + [15, 16]}, **{13: {0}, 15: ALLF | {0}})),
                 trace_env={"VH_DEEP": "1"}, n_trace=dict(quick=96, thorough=800), n_search=dict(quick=1500, thorough=20000)),
     "C08": dict(trace_gen="C08", oracle="C08", relevant=rel({0: ALLF | {50}}),
                 n_trace=dict(quick=200, thorough=2000), n_search=dict(quick=2500, thorough=40000)),
@@ -68,4 +68,6 @@ PROPS = {
 
 def install_known(table):
     """known-finding classes: predicates over (message text, case) that delimit a recorded finding by input class"""
-    pass
+    def ns_positioner_slow(text, case):
+        return bool(case) and case.get("p4") == "ns" and len(case.get("edges", [])) >= 40 and "did not return within" in text
+    table["ns-positioner-slow"] = ns_positioner_slow
